@@ -12,7 +12,8 @@ RULE = ('Exhaustive part: one recording per grid instant over a 4-day span (quic
         'each created and saved with the controlled clock at that instant through the real S3 cassette over the fake '
         'bucket; every (start, end) pair on the grid with start <= end is queried, and for end omitted "now" is every '
         'grid instant (queried in chronological order so that nothing is stored after "now"). Random part: '
-        'Hypothesis-generated minute-level recording instants, windows, metadata filters, limits, two categories and '
+        'Hypothesis-generated minute-level recording instants, windows, metadata filters, limits, two categories '
+        '(generated names, including date-format directives and format fields, one name extending the other) and '
         'two key prefixes. Oracle: the set {r : start <= t(r) <= end} computed from the harness list of save instants. '
         'Non-trivial: the window spans >= 2 calendar days and end time-of-day is earlier than start time-of-day '
         '(the class in which a day folder can be missed), or the window cuts through a day with recordings on both '
@@ -134,20 +135,26 @@ recs = st.lists(st.tuples(minutes, st.sampled_from(['A', 'A', 'AB']), st.sampled
 queries = st.tuples(minutes, st.one_of(st.none(), minutes), st.one_of(st.none(), st.integers(1, 5)),
                     st.one_of(st.none(), st.sampled_from([0, 1, [0, 1], {'operator': '>=', 'value': 1}])),
                     st.sampled_from(['A', 'AB']), st.booleans())
-random_cases = st.tuples(recs, st.lists(queries, min_size=1, max_size=4), st.sampled_from(['', 'p']))
+# category names: the time window must not depend on the text of the category (date-format directives, format
+# fields, spaces); 'AB' stands for <name>B, a category whose name extends the other one
+cat_names = st.one_of(st.just('A'), st.text(alphabet=st.sampled_from(list(u'AaYdmHj%{}_ -.0')), min_size=1, max_size=5))
+random_cases = st.tuples(recs, st.lists(queries, min_size=1, max_size=4), st.sampled_from(['', 'p']), cat_names)
 
 
 def check_random(ctx, case):
-    recs_, queries_, prefix = case
+    recs_, queries_, prefix = case[:3]
+    name = case[3] if len(case) > 3 else 'A'
+    names = {'A': name, 'AB': name + 'B'}
     with zoo.Zoo(kinds=('s3',), s3_prefixes=(prefix, 'other')) as z:
         cas, other = z.cassettes
         saved = []
-        for m, cat, x in sorted(recs_):
+        for m, cat, x in sorted((m, names[c], x) for m, c, x in recs_):
             t = BASE + dt.timedelta(minutes=m)
             saved.append((t, cat, x, save_at(cas, cat, t, {'x': x})))
             save_at(other, cat, t, {'x': x})
         last = max(t for t, _, _, _ in saved)
         for m0, m1, limit, flt, cat, rnd in queries_:
+            cat = names[cat]
             start = BASE + dt.timedelta(minutes=m0)
             end = BASE + dt.timedelta(minutes=m1) if m1 is not None else None
             if end is not None and end < start:
@@ -177,10 +184,11 @@ def check_random(ctx, case):
                                     iso(start), iso(end) if end else None, iso(now), cat, flt, limit, len(got), want_n,
                                     [iso(t) for t, c, _, _ in saved if c == cat]), 'missed')
             wc = window_class(start, hi)
-            ctx.case({'random': [recs_, [m0, m1, limit, flt, cat, rnd], prefix]},
+            ctx.case({'random': [recs_, [m0, m1, limit, flt, cat, rnd], prefix, name]},
                      wc != 'same-day' and len(matching) > 0,
                      classes=('rnd:' + wc, 'rnd:limit' if limit else 'rnd:nolimit', 'rnd:filter' if flt is not None
-                              else 'rnd:nofilter'))
+                              else 'rnd:nofilter', 'rnd:category-with-percent' if '%' in name else
+                              'rnd:category-plain'))
 
 
 def replay(ctx, case):
@@ -199,5 +207,5 @@ def run(ctx):
     if not ctx.violations:
         def body(case):
             check_random(ctx, case)
-        hyp_search(ctx, random_cases.map(lambda c: [[list(r) for r in c[0]], [list(q) for q in c[1]], c[2]]),
+        hyp_search(ctx, random_cases.map(lambda c: [[list(r) for r in c[0]], [list(q) for q in c[1]], c[2], c[3]]),
                    body, ctx.pick(600, 1500), label='random')
